@@ -6,14 +6,15 @@ at values / events / state (incl. the state right after deserialisation: flatten
 stamps, revisions), implementation vs the from-scratch specification (column V), and two
 implementation-side oracles below (independent reference interpreter; reuse of restored memos).
 
-Finding classes (see checks/notes/C26.txt; they become KNOWN-FINDING lines only if listed for
-C26 in /verif/known-findings.txt, otherwise they are VIOLATIONs):
+Finding classes (see checks/notes/C26.txt; they are KNOWN-FINDING lines only while listed for C26
+in /verif/known-findings.txt, otherwise VIOLATIONs):
   uninitialised-ingredient-panic     verifying a restored memo whose dependency is a tracked function
                                      that was not yet called in the new database panics
-  flattened-untracked-dependency     a non-persisted dependency with untracked reads is flattened away:
-                                     the restored memo is validated although external state changed
   evicted-dependency-not-serialised  a restored memo with unchanged inputs re-executes because a persisted
-                                     dependency was value-less (LRU) at snapshot time and was not serialised"""
+                                     dependency was value-less (LRU) at snapshot time and was not serialised
+FIXED in /repo e43c20c (no longer a class: a recurrence is a VIOLATION): flattened-untracked-dependency —
+a non-persisted dependency with untracked reads was flattened away and the restored memo returned
+a stale value.  Its minimal case is gen/corpus/C26/flattened-untracked-dependency.case (runs first)."""
 import os
 
 from vplib import diffcheck
@@ -100,53 +101,18 @@ def oracle(case, impl_lines, model_lines):
     return first
 
 
-def tainted_at(case, model_lines):
-    """step -> set of memo keys whose (restored) origin has lost an untracked dependency: the
-    model's ghost line `L` says which memos lose one at a snapshot; a restored memo keeps the
-    flattened origin (also through later snapshots) until it is re-executed."""
-    d = se.split_lines(model_lines)
-    lost = pe.lost_lines(model_lines)
-    tree = se.parse_sx(case)
-    hist = next(x for x in tree[2:] if isinstance(x, list) and x and x[0] == "hist")[1:]
-    taint = set()
-    image_taint = set()
-    out = {}
-    for i, op in enumerate(hist):
-        if op[0] == "snapshot":
-            image_taint = set(taint) | lost.get(i, set())
-        elif op[0] == "restore":
-            taint = set(image_taint)
-        out[i] = set(taint)
-        for e in d["E"].get(i, "").split():
-            t, k = e.split(":")
-            if t == "x":
-                taint.discard(k)
-    return out
-
-
 def finding_class(case, diff, impl_lines, model_lines):
     if diff.get("level") == "spec":
-        taint = tainted_at(case, model_lines)
-        classes = set()
-        for step, impl, _want in diff.get("all_spec", [(diff["step"], diff["impl"], diff["model"])]):
-            if impl == "panic 8":
-                classes.add("uninitialised-ingredient-panic")
-                continue
-            if taint.get(step):
-                classes.add("flattened-untracked-dependency")
-                continue
-            return None
-        # a case is attributed to a class only if every difference in it is explained
-        if classes == {"uninitialised-ingredient-panic"}:
+        # a case is attributed to the class only if every difference in it is explained by it
+        diffs = diff.get("all_spec", [(diff["step"], diff["impl"], diff["model"])])
+        if diffs and all(impl == "panic 8" for _step, impl, _want in diffs):
             return "uninitialised-ingredient-panic"
-        if "flattened-untracked-dependency" in classes:
-            return "flattened-untracked-dependency"
         return None
     if diff.get("level") == "oracle":
         if diff.get("kind") == "reuse" and diff.get("persisted_dependencies_missing_after_restore"):
             return "evicted-dependency-not-serialised"
         if diff.get("kind") == "value":
-            # the value oracle repeats the specification column: same classes
+            # the value oracle repeats the specification column: same class
             a = se.split_lines(impl_lines)
             b = se.split_lines(model_lines)
             i = diff["step"]
